@@ -257,6 +257,8 @@ pub enum Verdict {
     /// construct the implementation documents as unimplemented, or where the Recommendation is
     /// not pinned down by the model: Err is fine; if Ok, the record must still equal this one
     ExactOrErr(Box<Expect>, &'static str),
+    /// the model does not pin the construct down: nothing is asserted
+    Unspecified(&'static str),
 }
 
 impl SHdr {
@@ -518,7 +520,7 @@ impl StdHdr {
                 extra: self.pei.clone(),
             };
             if scalability {
-                return Verdict::ExactOrErr(Box::new(e), "ELNUM without PLUSPTYPE not modelled");
+                return Verdict::Unspecified("ELNUM without PLUSPTYPE is not modelled");
             }
             if let Some((_, pf)) = &prev {
                 if *pf != Some(fmt) {
